@@ -77,6 +77,9 @@ type Config struct {
 
 	// TTL is the time that key written with ttl will live
 	TTL time.Duration
+
+	// TTLKeyPrefix is the prefix of raw keys which are written with ttl, keys without it never expire
+	TTLKeyPrefix []byte
 }
 
 // Range implements Scanner interface
@@ -275,6 +278,7 @@ func (r *scanner) scan(ctx context.Context, start []byte, end []byte, revision u
 				compact:         compact,
 				tombstone:       r.config.Tombstone,
 				timeoutRevision: timeoutRevision,
+				ttlKeyPrefix:    r.config.TTLKeyPrefix,
 			}, store, r.coder, r.metricCli)
 
 			// run worker
@@ -337,6 +341,9 @@ type workerConfig struct {
 
 	// timeoutRevision indicate the revision that kvs with ttl were updated at is timeout
 	timeoutRevision uint64
+
+	// ttlKeyPrefix indicate the raw keys which were written with ttl
+	ttlKeyPrefix []byte
 }
 
 func newWorker(conf workerConfig, store storage.KvStorage, coder coder.Coder, metricCli metrics.Metrics) *worker {
@@ -571,7 +578,7 @@ func (w *worker) compactIfExpired(iter storage.Iter, rawKey []byte, revision uin
 		w.timeoutRevision == 0 {
 		return false, nil
 	}
-	if bytes.Contains(rawKey, []byte("/events/")) {
+	if len(w.ttlKeyPrefix) > 0 && bytes.HasPrefix(rawKey, w.ttlKeyPrefix) {
 		//? consider two type of compact now:
 		//? 1. delete directly from storage engine (use this one right now)
 		//? 2. set tombstone and delete util next compaction loop
